@@ -9,6 +9,7 @@ solver seed / budget / mode, routing failures, earlier compilations, working dir
 No golden files: the reference is recomputed from the current tree on every run."""
 from __future__ import annotations
 
+import copy
 import json
 import os
 import shutil
@@ -39,25 +40,100 @@ REFUSED = [
 DIRS = ["repo", "scratch", "root"]
 
 
-def _gen_program(ch: Chooser, tier: str) -> str:
-    k = ch.weighted([(5, "c01"), (2, "c03"), (2, "c05"), (2, "geom"), (1, "c04"), (2, "loader")])
+def _gen_stmts(ch: Chooser, tier: str) -> list:
+    k = ch.weighted([(5, "c01"), (2, "c03"), (2, "c05"), (2, "geom"), (3, "c04"), (2, "loader")])
     from . import c01, c03, c04, c05, geom
 
     if k == "loader":
-        return lang.pprogram(gen.loader_program(ch)[0])
+        return gen.loader_program(ch)[0]
 
     if k == "geom":
         case = geom.gen_geom_case(ch, "quick", PROP, poles="never")
     else:
         case = {"c01": c01, "c03": c03, "c04": c04, "c05": c05}[k].gen_case(ch, "quick")
-    return lang.pprogram(case["stmts"])
+    return case["stmts"]
+
+
+def _gen_program(ch: Chooser, tier: str) -> str:
+    return lang.pprogram(_gen_stmts(ch, tier))
+
+
+def _variant(ch: Chooser, stmts: list) -> list:
+    """An edited copy of a program, the way a session recompiles after a small change: same names,
+    same statement shapes (so internal numbering coincides), one to three expression sites changed:
+    a cell read replaced by a plain value or the reverse, a variable by another one, a literal or
+    an operator changed.  The edit may make the program ill-formed; then both sides must refuse."""
+    st = copy.deepcopy(stmts)
+    sigs = [s[2] for s in st if s[0] == "decl" and s[1] == "Signal"]
+    mems = [s[1] for s in st if s[0] == "mem"]
+    mtype = {s[1]: s[2] for s in st if s[0] == "mem" and isinstance(s[2], str)}
+    sites: list = []
+
+    def walk(node, parent, idx):
+        if not isinstance(node, list) or not node:
+            return
+        if isinstance(node[0], str):
+            if node[0] in ("var", "read", "lit") or (node[0] == "bin" and node[1] in ("+", "-", "*")):
+                if parent is not None:
+                    sites.append((parent, idx))
+            for i, x in enumerate(node):
+                if isinstance(x, list):
+                    walk(x, node, i)
+        else:
+            for i, x in enumerate(node):
+                walk(x, node, i)
+
+    for s in st:
+        if s[0] == "decl" and s[1] == "Signal":
+            walk(s[3], s, 3)
+        elif s[0] == "write":
+            walk(s[2], s, 2)
+        elif s[0] == "enable":
+            walk(s[2], s, 2)
+    if not sites:
+        return st
+    read_sites = [x for x in sites if x[0][x[1]][0] == "read"]
+    for k in range(ch.rint(1, 3)):
+        pool_ = read_sites if (k == 0 and read_sites and ch.chance(1, 2)) else sites
+        parent, idx = pool_[ch.draw(len(pool_))]
+        node = parent[idx]
+        if node[0] == "read" and (sigs or len(mems) > 1):
+            # keep the program well-typed: the replacement is projected onto the cell's type
+            # (one node for one node, so later internal numbering coincides with the original)
+            others = [m for m in mems if m != node[1]]
+            t = mtype.get(node[1])
+            if others and (ch.chance(1, 3) or not sigs):
+                o = ch.pick(others)
+                parent[idx] = ["read", o] if mtype.get(o) == t or t is None else ["proj", ["read", o], t]
+            elif t is not None and ch.chance(3, 4):
+                parent[idx] = ["proj", ["var", ch.pick(sigs)], t]
+            else:
+                parent[idx] = ["var", ch.pick(sigs)]
+        elif node[0] == "var" and node[1] in sigs:
+            parent[idx] = ["read", ch.pick(mems)] if (mems and ch.chance(1, 2)) else ["var", ch.pick(sigs)]
+        elif node[0] == "lit":
+            parent[idx] = ["lit", node[1] + ch.pick([-1, 1, 2]), 10]
+        elif node[0] == "bin":
+            parent[idx] = ["bin", ch.pick([o for o in ("+", "-", "*") if o != node[1]]), node[2], node[3]]
+    return st
 
 
 def gen_case(ch: Chooser, tier: str = "quick") -> dict:
     progs = []
+    edits: list = []
     n = ch.rint(1, 3)
     for _ in range(n):
-        progs.append(_gen_program(ch, tier))
+        st = _gen_stmts(ch, tier)
+        progs.append(lang.pprogram(st))
+        if ch.chance(1, 2):
+            # an edited version of the same program, compiled in the same session
+            try:
+                v = lang.pprogram(_variant(ch, st))
+            except Exception:
+                continue
+            if v != progs[-1]:
+                progs.append(v)
+                edits.append((len(progs) - 2, len(progs) - 1))
     special = ch.weighted([(5, "none"), (3, "pollute"), (1, "refused")])
     if special == "pollute":
         i = ch.draw(len(POLLUTERS))
@@ -74,6 +150,14 @@ def gen_case(ch: Chooser, tier: str = "quick") -> dict:
         i = ch.draw(len(progs))
         ops.append({"op": "compile", "prog": i, "options": gen.gen_options(ch),
                     "plan": gen.gen_plan(ch)})
+    for a, b in edits:
+        # edit-and-recompile: the two versions back to back, either order, same options
+        if ch.chance(2, 3):
+            o = gen.gen_options(ch)
+            if ch.chance(1, 2):
+                a, b = b, a
+            ops.append({"op": "compile", "prog": a, "options": o, "plan": gen.gen_plan(ch)})
+            ops.append({"op": "compile", "prog": b, "options": o, "plan": gen.gen_plan(ch)})
     if special == "pollute":
         # the interesting order: polluter first, victim afterwards
         pi, vi = len(progs) - 2, len(progs) - 1
